@@ -556,10 +556,28 @@ pub fn check(scn: &Scenario, stats: &mut Stats) -> Vec<Violation> {
         }
     }
     if got.iter().chain(want.iter()).any(|k| is_unterminated_tail(&scn.world, k)) {
-        // the recovery from such a tail differs between "end of file" and "end of line" beyond the
-        // tail itself (it can swallow the following line): no equality is demanded for this world
-        stats.inc("excluded:unterminated_tail(C07's subject)");
-        return out;
+        // the statement on such a tail is reported at the end of the file in the split program and
+        // on the newline that follows the pasted text in the single file: the position is line
+        // accounting (C07/C09), but the items themselves must be the same on both sides
+        stats.inc("probe:unterminated_tail");
+        let split_tail = |v: &mut Vec<Key>| -> Vec<String> {
+            let mut t: Vec<String> = v.iter().filter(|k| is_unterminated_tail(&scn.world, k)).map(|k| format!("{}: {}", k.0, k.5)).collect();
+            v.retain(|k| !is_unterminated_tail(&scn.world, k));
+            t.sort();
+            // a file pasted twice reports the same item once (see included_more_than_once)
+            t.dedup();
+            t
+        };
+        let (gt, wt) = (split_tail(&mut got), split_tail(&mut want));
+        if gt != wt {
+            out.push(viol(
+                "split-equals-pasted",
+                "lib:differs-from-pasted:statement-cut-off-by-end-of-file".into(),
+                format!("a file ends, without a newline, in the middle of a statement: the split program reports {gt:?} for it, the pasted file {wt:?}"),
+                &feats,
+            ));
+            return out;
+        }
     }
     got.sort();
     want.sort();
@@ -807,10 +825,28 @@ fn check_t2(scn: &Scenario, stats: &mut Stats) -> Vec<Violation> {
         }
     }
     if got.iter().chain(want.iter()).any(|k| is_unterminated_tail(&scn.world, k)) {
-        // the recovery from such a tail differs between "end of file" and "end of line" beyond the
-        // tail itself (it can swallow the following line): no equality is demanded for this world
-        stats.inc("excluded:unterminated_tail(C07's subject)");
-        return out;
+        // the statement on such a tail is reported at the end of the file in the split program and
+        // on the newline that follows the pasted text in the single file: the position is line
+        // accounting (C07/C09), but the items themselves must be the same on both sides
+        stats.inc("probe:unterminated_tail");
+        let split_tail = |v: &mut Vec<Key>| -> Vec<String> {
+            let mut t: Vec<String> = v.iter().filter(|k| is_unterminated_tail(&scn.world, k)).map(|k| format!("{}: {}", k.0, k.5)).collect();
+            v.retain(|k| !is_unterminated_tail(&scn.world, k));
+            t.sort();
+            // a file pasted twice reports the same item once (see included_more_than_once)
+            t.dedup();
+            t
+        };
+        let (gt, wt) = (split_tail(&mut got), split_tail(&mut want));
+        if gt != wt {
+            out.push(viol(
+                "split-equals-pasted",
+                "cli:differs-from-pasted:statement-cut-off-by-end-of-file".into(),
+                format!("a file ends, without a newline, in the middle of a statement: the split program reports {gt:?} for it, the pasted file {wt:?}"),
+                &feats,
+            ));
+            return out;
+        }
     }
     got.sort();
     want.sort();
